@@ -112,6 +112,8 @@ HAND = [
     "`define E\n`define E2()\nx `E y `E2() z\n",
     "`define L a \\\n b \\\r\n c\n`L\n",
     "`define S(x) \"x\" x\n`S(v)\n",
+    # continuation lines in a text with CR LF line ends
+    "`define M(a,b) a \\\r\n b\r\n`M(1,2) ;\r\n", "`define N(a) a \\\r\n + a \\\r\n + 1\r\nx = `N(q) ;\r\n", "`define O a \\\r b\r`O\r",
     # a macro without formals whose text ends in the name of one with formals: the parenthesis behind the usage is its argument list
     "`define ADD(a,b) ((a)+(b))\n`define PLUS `ADD\ny = `PLUS(p, q) ;\n",
     "`define SEL(v, i) v[i]\n`define PICK `SEL\n`define PICK2 `PICK\nz = `PICK2(w, 3) ;\n",
